@@ -1,6 +1,7 @@
 import os, sys, re
 sys.path.insert(0, os.path.join(os.path.dirname(os.path.abspath(__file__)), '..', 'lib'))
-import vlib, flow
+import vlib, flow, gen_trans
+gen_trans.register('kfmt_fmt.json')   # Go -> Gallina translation of fmt.go: fmtRepeat/fmtBool/fmtString/fmtInt/Fprintf (Gen/Trans_kfmt_fmt.v, used by Kfmt/FmtTrans.v)
 
 H = os.path.join(vlib.ROOT, 'harness/kernel/kfmt')
 vlib.register_const_dump('kernel', 'kfmt', os.path.join(H, 'zz_verif_consts_test.go'))
@@ -133,7 +134,7 @@ def simulate_limits(fmt, args):
 
 class C15(flow.Spec):
     prop = 'C15'
-    props_files = ['theories/Props/C15.v', 'theories/Props/C15_examples.v']
+    props_files = ['theories/Props/C15.v', 'theories/Props/C15_examples.v', 'theories/Props/C15_trans.v', 'theories/Props/C15_trans_examples.v']
     model_targets = ['theories/Kfmt/Fmt.vo']
     pkg = 'kfmt'
     harness = [os.path.join(H, 'zz_verif_c15_test.go')]
